@@ -39,7 +39,7 @@ def tokens(n):
 
 
 # software tokens / comments that themselves contain something shaped like an identification string (real: "Sun_SSH-1.5")
-EMBEDDED = ['Sun_SSH-1.5', 'x-SSH-1.0', 'a_SSH-9.9', 'SSH_2.0', 'xSSH-1.99-y']
+EMBEDDED = ['Sun_SSH-1.5', 'x-SSH-1.0', 'a_SSH-9.9', 'SSH_2.0', 'xSSH-1.99-y', 'SSH-2x5', 'SSH-1_5', 'SSH-2_0-OpenSSH_9.6']
 EMBEDDED_COMMENTS = ['SSH-1.5 compat', 'was SSH-1.0', 'c SSH-9.9-x']
 
 
@@ -125,6 +125,8 @@ def check_templates(st):
 
 # ---- socket path: header lines, endings, segmentation at every offset
 PRELINES = [[], ['hello'], ['xSSH-2.0-a'], [' SSH-2.0-a'], ['SSH-'], ['Welcome to host', 'second line'], ['', 'after blank'], ['SSH-2', 'SSH-two.0-x'],
+            # lines that are one character away from an identification string: another character where the dot between major and minor belongs
+            ['SSH-2_0-gateway'], ['SSH-2,0-relay ready'], ['SSH-2-0'], ['SSH-2:0-proxy'], ['SSH-200-x'], ['SSH-2 0-legacy'], ['SSH-2x0-a', 'SSH-1/5-b'],
             ['\x1b[1mSSH-2.0-gateway\x1b[0m ahead'], ['notice ' + 'w' * 280 + ' SSH-2.0-tail of a long line'], ['\x1b[32mWelcome\x1b[0m', 'plain line']]
 SOCK_BANNERS = ['SSH-2.0-OpenSSH_9.6', 'SSH-2.0-longsoft_1.0 ' + 'comment ' * 40 + 'end', 'SSH-2.0-a.1 c d', 'SSH-1.99-dropbear_2020.81', 'SSH-2.0-a\x80b', 'SSH-1.99-a\x80b c', 'SSH-2.0-x  two  spaces ', 'SSH-2.0-Sun_SSH-1.5 was SSH-1.0']
 
